@@ -239,12 +239,24 @@ type chunked struct {
 	k      int
 }
 
+// Read hands out the data in pieces of the listed sizes (cyclically).  A 0 in the list is not a
+// size: it says that the last bytes are returned TOGETHER with the end-of-file error, as the
+// io.Reader contract allows, instead of on a call of their own.
 func (c *chunked) Read(p []byte) (int, error) {
 	if len(c.data) == 0 {
 		return 0, eofErr()
 	}
-	n := c.chunks[c.k%len(c.chunks)]
-	c.k++
+	withEOF := false
+	for _, x := range c.chunks {
+		if x == 0 {
+			withEOF = true
+		}
+	}
+	n := 0
+	for n == 0 {
+		n = c.chunks[c.k%len(c.chunks)]
+		c.k++
+	}
 	if n > len(p) {
 		n = len(p)
 	}
@@ -253,6 +265,9 @@ func (c *chunked) Read(p []byte) (int, error) {
 	}
 	copy(p, c.data[:n])
 	c.data = c.data[n:]
+	if withEOF && len(c.data) == 0 {
+		return n, eofErr()
+	}
 	return n, nil
 }
 
